@@ -73,6 +73,22 @@ class TlcResult:
             if ln.startswith('<<"%s"' % tag):
                 body = ln[2:-2]
                 res.append([json.loads(x) if x.strip().startswith('"') else _num(x) for x in _split(body)][1:])
+        # tuples that TLC's pretty-printer wrapped over several lines (long tuples): << "tag",\n   1,\n   ... >>
+        cur, depth = None, 0
+        for ln in self.out.splitlines():
+            st = ln.strip()
+            if cur is None:
+                if st.startswith("<< "):
+                    cur, depth = "", 0
+                else:
+                    continue
+            cur += st + " "
+            depth += st.count("<<") - st.count(">>")
+            if depth <= 0:
+                t = " ".join(cur.split()).replace("<< ", "<<").replace(" >>", ">>")
+                cur = None
+                if t.startswith('<<"%s"' % tag) and t.endswith(">>"):
+                    res.append([json.loads(x) if x.strip().startswith('"') else _num(x) for x in _split(t[2:-2])][1:])
         return res
 
     def state_var(self, var):
